@@ -492,6 +492,29 @@ func c07kinds(c Case, env *Env, res *Result) {
 					return nil, false
 				}
 			case "slfield":
+				if t.Kind() == reflect.Int64 {
+					// the same long in integer lists that follow a typed map and a list of another width
+					// (list type numbering), and in fields whose names differ only in letter case
+					x := xv.Int()
+					mt := &zoo.MapThenInts{M: zoo.NamedMap{"k": 1}, A: []int32{1, 2}, B: []int64{x, 3}, C: []int64{4, x}, D: []uint32{5}, E: []int64{x}}
+					ci := &zoo.CaseInts{Kb: x, KB: x ^ 1, Mb: int32(x), MB: int32(x) ^ 1, Gb: uint64(x) >> 1, GB: uint16(x)}
+					for _, v := range []interface{}{mt, ci} {
+						o := roundTrip(v)
+						switch {
+						case o.Panic != nil:
+							viol(o.Panic.Class, o.Stage+" panic "+o.Panic.Msg)
+						case o.EncErr != nil:
+							viol("enc-error", o.EncErr.Error())
+						case o.DecErr != nil:
+							viol("dec-error", fmt.Sprintf("%T (%x) %v", v, o.Wire, o.DecErr))
+						default:
+							if d := zoo.Equiv(v, o.Dec, zoo.EquivOpts{}); d != "" {
+								viol("mismatch:value", fmt.Sprintf("%T (%x): %s", v, o.Wire, d))
+							}
+						}
+					}
+					res.Count("longs_in_lists_after_a_typed_map_and_in_case_variant_fields", 1)
+				}
 				// a slice FIELD of a struct, sent without a name map (the list travels untyped) and
 				// decoded with a type map that holds classes only: the element conversion path
 				hv := reflect.New(slFieldType[t.Kind()])
